@@ -327,6 +327,27 @@ def normBool (f : Field) : List Bytes :=
 def octetKinds : List String := ["category", "type", "lang", "name", "feature", "form-type", "var", "value"]
 
 
+/-- XEP-0115 5.1 step 7 for one form, in the XEP's vocabulary: the value of its `FORM_TYPE`
+field (which must be defined), `<`, then every *other* field sorted by `var`, each rendered
+by `FieldSpec` -/
+def XepFormSpec (F : Form) (r : Bytes) : Prop :=
+  ∃ t fields rs, F.xepType = some t ∧
+    IsSort fieldLe (F.fields.filter fun fd => fd.var != formTypeVar) fields ∧
+    All₂ FieldSpec fields rs ∧ r = t ++ lt ++ rs.flatten
+
+/-- XEP-0115 5.1 steps 1-7 in the XEP's vocabulary (`xepIdentity`, `Form.xepType`; nothing
+shared with `verImpl` but the byte order `lexLe` and the key cascade `idLe`, both tied to the
+code by the probe tables): identities sorted and written `category/type/lang/name<`, features
+sorted each followed by `<`, forms sorted by their `FORM_TYPE` value -/
+def XepSpec (i : Info) (s : Bytes) : Prop :=
+  ∃ ids feats forms rs,
+    IsSort idLe i.ids ids ∧ IsSort lexLe i.feats feats ∧
+    forms.Perm i.forms ∧
+    forms.Pairwise (fun a b => ∃ x y, a.xepType = some x ∧ b.xepType = some y ∧ lexLe x y = true) ∧
+    All₂ XepFormSpec forms rs ∧
+    s = ids.flatMap xepIdentity ++ feats.flatMap (fun f => f ++ lt) ++ rs.flatten
+
+
 /-! ## Probe domains (the regenerated facts of `Generated/C20.lean` are tables over them) -/
 
 /-- for every ordered pair of distinct positions `(i, j)` of `u`: does `le u[i] u[j]` hold, i.e.
